@@ -20,7 +20,7 @@ ASSUMPTIONS = ["score(X) is compared with the naive reference GEMINI of predict_
                "for ints) are not generated"]
 EVAL_COUNTER = "fits"
 REQUIRED = {"quick": dict({"fits": 500, "contracts_complete": 450, "score_vs_reference": 150, "list_input": 40,
-                           "int_input": 40, "k_equals_one": 15, "k_equals_n": 10, "douglas_long_fits": 50,
+                           "int_input": 40, "k_equals_one": 15, "k_equals_n": 10, "douglas_long_fits": 50, "score_after_inplace_refresh_checked": 40,
                            "douglas_long_cut_points_out_of_order": 8},
                           **{"fit:" + e: 12 for e in gen.ESTIMATORS}),
             "thorough": dict({"fits": 10000, "contracts_complete": 9000}, **{"fit:" + e: 300 for e in gen.ESTIMATORS})}
@@ -257,6 +257,23 @@ def run_case(case, ctx, st):
                     ctx.count("score_fresh_data_checked")
                     need(abs(sc2 - val2) <= 1e-9 * max(1.0, abs(val2)), "score-fresh-data-differs-from-documented-gemini",
                          {"score": sc2, "expected": val2})
+        # the array the model was fitted on, refreshed in place (a reused buffer): score speaks about the data it is
+        # given now
+        if name != "Kauri" and name not in gen.NONPARAMETRIC and pre is None and form == "float" and Xin is X and n >= 2 \
+                and not (dist == "tv" and ovo and K == 1):
+            import gemclus.gemini as gg
+            X[:] = gen.make_data(rng, n, d, kind) * float(rng.uniform(0.5, 1.5))
+            P3 = np.asarray(est.predict_proba(np.array(X, copy=True)))
+            if np.all(np.isfinite(P3)):
+                cls3 = {"kl": gg.KLGEMINI, "tv": gg.TVGEMINI, "hellinger": gg.HellingerGEMINI,
+                        "chi2": gg.ChiSquareGEMINI, "mmd": gg.MMDGEMINI, "wasserstein": gg.WassersteinGEMINI}[dist]
+                obj3 = cls3(ovo=ovo, kernel="precomputed", epsilon=eps) if dist == "mmd" else (
+                    cls3(ovo=ovo, metric="precomputed", epsilon=eps) if dist == "wasserstein" else cls3(ovo=ovo, epsilon=eps))
+                val3 = float(np.asarray(obj3(P3, gen.expected_affinity(spec, np.array(X, copy=True), None))).reshape(-1)[0])
+                sc3 = est.score(X)
+                ctx.count("score_after_inplace_refresh_checked")
+                need(abs(sc3 - val3) <= 1e-9 * max(1.0, abs(val3)), "score-after-inplace-refresh-differs-from-documented-gemini",
+                     {"score": sc3, "expected": val3})
     except Exception as e:
         ctx.violation("post-fit-api", f"post-fit-call-raises/{name}/{type(e).__name__}@{where(e)}",
                       observed={"exc": repr(e)[:300], "estimator": name, "params": params, "form": form},
